@@ -18,7 +18,7 @@ from ..observe import AsyncRecorder, Recorder, run_async, run_sync
 
 ID = "C09"
 LEVEL = "fault_enumeration"
-BUDGET = {"quick": 480, "thorough": 12000}
+BUDGET = {"quick": 960, "thorough": 16000}
 SHARDS = {"quick": 8, "thorough": 16}
 RULE = (
     "Hypothesis-generated programs (2-5 function nodes + 0-2 gates) with a drawn cacheable subset, deliberately including nodes "
@@ -30,7 +30,7 @@ RULE = (
     "LRU model over (function, output names, targets, positional arguments) must predict every hit and miss, a hit must not invoke "
     "the function, and one key string must never stand for two abstract keys. Fault enumeration (DiskCache): after a populating "
     "run, EVERY stored entry x {payload bit flip, truncation, replaced by str/int/float/dict, hmac deleted, payload deleted, hmac "
-    "altered, hmac replaced by bytes, new payload with old hmac} and EVERY dropped backend write k (crash between the two writes): "
+    "altered, truncated, emptied (also with a forged payload), extended, hmac replaced by bytes, new payload with old hmac} and EVERY dropped backend write k (crash between the two writes): "
     "a re-run through a new DiskCache raises nothing, equals the uncached run, re-invokes the affected function, and a "
     "pickle.loads spy saw only bytes whose HMAC verifies under the directory key. Non-trivial = a history with >=1 hit and >=1 "
     "eviction, or a corrupted entry that was subsequently requested."
@@ -41,7 +41,8 @@ ASSUMPTIONS = [
     "cross-process races on one cache directory are out of scope",
 ]
 
-CORRUPTIONS = ["bitflip", "truncate", "as_str", "as_int", "as_float", "as_dict", "hmac_deleted", "payload_deleted", "hmac_altered", "hmac_bytes", "torn_overwrite"]
+CORRUPTIONS = ["bitflip", "truncate", "as_str", "as_int", "as_float", "as_dict", "hmac_deleted", "payload_deleted", "hmac_altered", "hmac_bytes", "torn_overwrite",
+               "hmac_truncated", "hmac_empty", "hmac_empty_forged", "hmac_extended"]
 
 
 @st.composite
@@ -88,6 +89,10 @@ def _program(draw):
         if n["k"] == "func" and n.get("cache") and "fid" not in n and not any(m.get("fid") == n["name"] for m in nodes) and prob(draw, 0.3):
             nodes[i] = {**n, "consts": [n["name"] + "_p", n["name"] + "_q"]}
             labels.add("literal_constants")
+        elif n["k"] == "func" and n.get("cache") and "fid" not in n and not any(m.get("fid") == n["name"] for m in nodes) and not n.get("emit") and prob(draw, 0.3):
+            # a function with retrievable source; its twin differs in the INDENTATION of one statement only
+            nodes[i] = {**n, "indent": 0}
+            labels.add("source_with_block_structure")
     # gates
     funcs = [n["name"] for n in base]
     names = sorted({p for n in base for p in n["params"]} | {o for n in base for o in n["outs"]})
@@ -142,7 +147,7 @@ def _case(draw, tier):
     nruns = draw(st.integers(2, 8))
     # an alternative program sharing the cache: one cached node re-declared with permuted outputs / swapped inputs / swapped targets
     alt = None
-    cands = [n for n in nodes if n.get("cache") and (len(n.get("outs", [])) >= 2 or len(n.get("params", [])) >= 2 or n["k"] == "ifelse" or (n.get("emit") and n["k"] == "func") or n.get("consts"))]
+    cands = [n for n in nodes if n.get("cache") and (len(n.get("outs", [])) >= 2 or len(n.get("params", [])) >= 2 or n["k"] == "ifelse" or (n.get("emit") and n["k"] == "func") or n.get("consts") or n.get("indent") is not None)]
     if cands and prob(draw, 0.6):
         a = draw(st.sampled_from(cands))
         opts = []
@@ -156,6 +161,8 @@ def _case(draw, tier):
             opts += ["rename_emit", "rename_emit_with_outputs"]
         if a.get("consts"):
             opts += ["permute_consts", "permute_consts"]
+        if a.get("indent") is not None:
+            opts += ["reindent", "reindent", "reindent"]
         if opts:
             alt = {"node": a["name"], "how": draw(st.sampled_from(opts))}
     # variants 4 and 5 supply True and 1.0 where variant 1 supplies 1: equal (==, hash) but DIFFERENT arguments
@@ -303,6 +310,9 @@ def _alt_nodes(nodes, alt):
         elif alt["how"] == "permute_consts":
             m["consts"] = list(reversed(n["consts"]))  # ANOTHER function: same code shape, the two constants in swapped roles
             m["fid"] = n["name"] + "~pc"
+        elif alt["how"] == "reindent":
+            m["indent"] = 1  # ANOTHER function: the same tokens, one statement moved out of the loop
+            m["fid"] = n["name"] + "~in"
         elif alt["how"] == "rename_emit":
             m["emit"] = [emit_map[e] for e in n["emit"]]  # re-declared with another signal name
         elif alt["how"] == "rename_emit_with_outputs":
@@ -513,7 +523,9 @@ def check_case(case, ev):
             size = None if size == "None" else int(size)
             inner = InMemoryCache(max_size=size)
         else:
-            tmpdir = tempfile.mkdtemp(prefix="hgverif-c09-")
+            # (a memory-backed directory when there is one: the checks are about what DiskCache reads back, not about the disk)
+            shm = "/dev/shm" if os.path.isdir("/dev/shm") and os.access("/dev/shm", os.W_OK) else None
+            tmpdir = tempfile.mkdtemp(prefix="hgverif-c09-", dir=shm)
             size = None
             inner = DiskCache(os.path.join(tmpdir, "cache"))
         backend = LoggingBackend(inner, trace)
@@ -655,6 +667,16 @@ def _corrupt(dc, key, how):
         dc.set(hk, b"\x00" * 32)
     elif how == "torn_overwrite":
         dc.set(key, pickle.dumps({"evil": ("torn",)}))
+    elif how == "hmac_truncated":
+        h = dc.get(hk)
+        dc.set(hk, h[: len(h) // 2])  # a signature that was only half written
+    elif how == "hmac_empty":
+        dc.set(hk, "")
+    elif how == "hmac_empty_forged":
+        dc.set(hk, "")
+        dc.set(key, pickle.dumps({"evil": ("forged",)}))
+    elif how == "hmac_extended":
+        dc.set(hk, dc.get(hk) + "00")
     else:
         raise AssertionError(how)
 
